@@ -48,6 +48,7 @@ type pathCtx struct {
 	keepContext bool // do not drop variables of run-constant "context" types
 	noParams    bool // do not expand parameters through call sites
 	cuts        int  // number of expansions cut because the variable was already being expanded
+	seenField   map[string]bool
 }
 
 // pathsOf returns the access paths an expression depends on.
@@ -187,6 +188,30 @@ func (pc *pathCtx) pathsOf(e ast.Expr, depth int, out map[string]bool) {
 	case *ast.SelectorExpr:
 		if _, isPkg := info.Uses[identOf(v.X)].(*types.PkgName); isPkg {
 			return
+		}
+		// a field of a local struct that only groups a few locals (`lines.defs = append(lines.defs, x)`) is a
+		// variable of its own: it depends on what is stored into it
+		if id := identOf(v.X); id != nil {
+			if obj, ok := info.Uses[id].(*types.Var); ok && !obj.IsField() && paramIndex(pc.fi, obj) < 0 && depth < 24 {
+				if _, isStruct := obj.Type().Underlying().(*types.Struct); isStruct {
+					if defs := localFieldDefs(info, pc.fi.Decl, obj, v.Sel.Name); len(defs) > 0 {
+						key := obj.Name() + "." + v.Sel.Name
+						if pc.seenField == nil {
+							pc.seenField = map[string]bool{}
+						}
+						if pc.seenField[key] {
+							pc.cuts++
+							return
+						}
+						pc.seenField[key] = true
+						for _, d := range defs {
+							pc.pathsOf(d, depth+1, out)
+						}
+						delete(pc.seenField, key)
+						return
+					}
+				}
+			}
 		}
 		sub := map[string]bool{}
 		pc.pathsOf(v.X, depth, sub)
@@ -614,4 +639,47 @@ func constArgsOf(w *World, fi *FuncInfo, pi int) ([]string, bool) {
 		})
 	}
 	return vals, ok && len(vals) > 0
+}
+
+
+// localFieldDefs: what is stored into the field `name` of the local struct variable obj inside fd: right-hand sides of
+// `obj.name = e`, of `obj.name[i] = e`, and the field's value in a composite literal obj is defined from.
+func localFieldDefs(info *types.Info, fd *ast.FuncDecl, obj types.Object, name string) []ast.Expr {
+	var out []ast.Expr
+	isField := func(e ast.Expr) bool {
+		sel, ok := ast.Unparen(e).(*ast.SelectorExpr)
+		if !ok || sel.Sel.Name != name {
+			return false
+		}
+		id := identOf(sel.X)
+		return id != nil && objOf(info, id) == obj
+	}
+	ast.Inspect(fd, func(n ast.Node) bool {
+		as, ok := n.(*ast.AssignStmt)
+		if !ok {
+			return true
+		}
+		for i, l := range as.Lhs {
+			if i >= len(as.Rhs) {
+				break
+			}
+			if isField(l) {
+				out = append(out, as.Rhs[i])
+			}
+			if ix, ok := ast.Unparen(l).(*ast.IndexExpr); ok && isField(ix.X) {
+				out = append(out, as.Rhs[i])
+			}
+			if id := identOf(l); id != nil && objOf(info, id) == obj {
+				if cl, ok := ast.Unparen(as.Rhs[i]).(*ast.CompositeLit); ok {
+					for _, el := range cl.Elts {
+						if kv, ok := el.(*ast.KeyValueExpr); ok && es(kv.Key) == name {
+							out = append(out, kv.Value)
+						}
+					}
+				}
+			}
+		}
+		return true
+	})
+	return out
 }
